@@ -382,6 +382,12 @@ class Sim:
         m = w.model
         if not (m.pickups or m.solves):
             return
+        z = [abs(f(v)) for v in self.lens.surface_group.positions[1:]]
+        if not all(map(math.isfinite, z)) or max(z) > 1e8 * (1 + m.zscale):
+            # an unbounded driver took the lens to astronomical size: a
+            # height of order one cannot be resolved there
+            self.probe('pickup_solve_check_skipped_lens_at_astronomical_size')
+            return
         w.opname = 'optimize'
         try:
             w.check_pickups()
@@ -674,7 +680,9 @@ def gen_variable(ch, m):
         cur = s['coeffs'][spec['coeff_number']]
     elif t in ('polynomial_coeff', 'chebyshev_coeff'):
         spec['coeff_index'] = [ch.randint(0, 2), ch.randint(0, 2)]
-        cur = 0.0
+        i, j = spec['coeff_index']
+        c = s['coeffs'] or [[0.0]]
+        cur = float(c[i][j]) if i < len(c) and j < len(c[i]) else 0.0
     elif t in ('tilt', 'decenter'):
         spec['axis'] = ch.pick(['x', 'y'])
         cur = s[('r' if t == 'tilt' else 'd') + spec['axis']]
